@@ -148,9 +148,24 @@ def earlier_for(variant, pseed):
     return cands[(pseed // 4) % len(cands)]
 
 
-def run_request(variant, pseed, fault=None, cseed=0, keep=False):
+def run_request(variant, pseed, fault=None, cseed=0, keep=False, dcfg_override=None):
     """fault: None or (exchange index relative to the request, kind)."""
     req, exp, v1, dcfg = build_request(variant, pseed, cseed)
+    for k_, v_ in (dcfg_override or {}).items():
+        dcfg[k_] = dict(dcfg.get(k_) or {}, **v_)
+    if variant == "advanceBlockchain" and exp is not None:
+        # device policy by policy seed: asks for brothers and takes everything (most seeds), or
+        # reports partial success straight after the first block without asking for brothers, or
+        # partial success at the very end, or total success after the first block
+        pol = pseed % 8
+        if pol == 5:
+            exp["ask_brothers"] = [False]
+            exp["stop_after"] = {"n": 1, "partial": True}
+        elif pol == 6:
+            exp["stop_after"] = {"n": 2, "partial": True}
+        elif pol == 7:
+            exp["ask_brothers"] = [False]
+            exp["stop_after"] = {"n": 1, "partial": False}
     pch = Choices(seed=pseed)
     target = {}
 
